@@ -199,19 +199,19 @@ ROUND5 = {'C01': 'Round 5: C01.step_in_loop - every integration step the real lo
  'C02': 'Round 5: C02.reach (TEST strength) - a slow projectile zeroed up to near its maximum range on level and inclined sight lines, precondition established natively; five inputs on which the search does not converge although the target is within reach are KNOWN FINDINGS (known_findings.json), any other failing input is reported.',
  'C03': 'Round 5: the carrier\'s calculator has produced a card with extra data and a time step before the card that is checked.',
  'C04': 'Round 5: C04.history - symbolic-range fire on a calculator with tight limits after an earlier failed / successful zeroing or a fire cut short, compared with a fresh calculator of the same configuration.',
- 'C05': 'Round 5: C05.spin with powder sensitivity in force (the Miller formula sees the launch velocity).',
+ 'C05': 'Round 5: C05.spin with powder sensitivity in force (the Miller formula sees the launch velocity). Round 6: C05.mach_column_cut_short - the terminal row of a RangeError path in the one-step world.',
  'C06': 'Round 5: a conversion entry point that raises on a valid unit is reported (operation_raised) instead of stopping the run.',
  'C07': 'Round 5: the global step given as a bare number, then the preferred unit changed, then a calculator created; no private global of the package is read or written by the harnesses.',
- 'C08': 'Round 5: C08.standard_twice - the standard atmosphere requested again (icao / standard / default of a new Shot) after the first object was modified by its owner.',
+ 'C08': 'Round 5: C08.standard_twice - the standard atmosphere requested again (icao / standard / default of a new Shot) after the first object was modified by its owner. Round 6: far-from-station prediction asked before and after a humidity change; a refused humidity assignment changes nothing (atmosphere and vacuum).',
  'C09': 'Round 5: C09.shared_points - one list of DragDataPoint objects used for a plain model, a multi-BC model and a plain model again.',
  'C10': 'Round 5: C10.footprint also snapshots the scalar class attributes of every class of the package, builds an unrelated vacuum shot / modified standard atmosphere / multi-BC model along the way, and its threads fire different shots.',
  'C11': 'Round 5: with a time step short enough to put clock rows between distance rows, the rows recorded by distance are exactly those of the request without a time step.',
- 'C12': 'Round 5: two of the winds given are the same wind over different stretches.',
- 'C13': 'Round 5: the foreign unit CALLED on the quantity (Unit.X(q), PreferredUnits.<slot>(q)) and read back.',
- 'C14': 'Round 5: quick tier includes shapes (4,2) and (3,3): several BC points inside one table interval.',
+ 'C12': 'Round 5: two of the winds given are the same wind over different stretches. Round 6: until-distances as bare numbers (0 included).',
+ 'C13': 'Round 5: the foreign unit CALLED on the quantity (Unit.X(q), PreferredUnits.<slot>(q)) and read back. Round 6: C13.constructed - quantities built by the real constructors (angles up to three turns) read before and after display-unit round trips.',
+ 'C14': 'Round 5: quick tier includes shapes (4,2) and (3,3): several BC points inside one table interval. Round 6: a second model at the same Mach numbers with other BC values; BC points at Mach 0.',
  'C15': 'Round 5: the calculator has served a supersonic shot just before; the events-only request (record step 0) through TrajectoryCalc.trajectory reports the same events within the range.',
- 'C16': 'Round 5: pure event rows (no RANGE bit) at every position; C16.successive - six result objects created, asked and released in turn (list free-list drained so that the address is reused).',
- 'C17': 'Round 5: stated velocity and modifier re-stated on the same Ammo while sensitivity is enabled.',
+ 'C16': 'Round 5: pure event rows (no RANGE bit) at every position; C16.successive - six result objects created, asked and released in turn (list free-list drained so that the address is reused). Round 6: rows of the first answer re-displayed in other units before the question is repeated; C16.float_witness (TEST strength): requests exactly equal to row distances in true doubles.',
+ 'C17': 'Round 5: stated velocity and modifier re-stated on the same Ammo while sensitivity is enabled. Round 6: launch velocity with a Vacuum built with an air temperature.',
  'C18': 'Round 5: unit names through the configuration-file door (real _load_config, TOML reader stubbed to return the symbolic spelling); calculators first touched after later sets / resets of the global step; precompiled re.Pattern globals are wrapped by the string stub.',
  'C19': 'Round 5: target distance exactly 0 for FFP / LWIR.',
  'C20': 'Round 5: the same result object asked again after the preferred distance unit changed.'}
